@@ -29,6 +29,11 @@ func (r *run) startUpstream(c *cli) error {
 			return
 		}
 		r.track(u.Raw)
+		if u.Addr.IsIP() && u.Addr.Port() == dnsPort && u.Addr.IP().Unmap() == dnsIP4 {
+			// the resolver reaches its DNS server through this proxy
+			r.forwardToDNS(u)
+			return
+		}
 		if len(u.Payload) > 0 {
 			if _, err := u.Conn.Write(u.Payload); err != nil {
 				u.Conn.Close()
@@ -73,6 +78,58 @@ func (r *run) startUpstream(c *cli) error {
 	return nil
 }
 
+// forwardToDNS connects a proxied stream to the DNS server's TCP port.
+func (r *run) forwardToDNS(u *svc.UpConn) {
+	s := r.s
+	defer u.Conn.Close()
+	ctx, cancel := context.WithTimeout(context.Background(), 30*time.Second)
+	d, err := r.e.Up.DialTCP(ctx, netip.AddrPortFrom(dnsIP4, dnsPort))
+	cancel()
+	if err != nil {
+		return
+	}
+	r.track(d)
+	defer d.Close()
+	if len(u.Payload) > 0 {
+		if _, err := d.Write(u.Payload); err != nil {
+			return
+		}
+	}
+	done := false
+	s.Go("dns-forward.up", func() {
+		buf := make([]byte, 8192)
+		for {
+			n, err := u.Conn.Read(buf)
+			if n > 0 {
+				if _, werr := d.Write(buf[:n]); werr != nil {
+					break
+				}
+			}
+			if err != nil {
+				d.CloseWrite()
+				break
+			}
+		}
+		done = true
+		s.Poke()
+	})
+	buf := make([]byte, 8192)
+	for {
+		n, err := d.Read(buf)
+		if n > 0 {
+			if _, werr := u.Conn.Write(buf[:n]); werr != nil {
+				break
+			}
+		}
+		if err != nil {
+			break
+		}
+	}
+	u.Conn.Close()
+	d.Close()
+	s.WaitFor("dns forward ends", time.Minute, func() bool { return done })
+}
+
 // --- TCP man-in-the-middle ------------------------------------------------------------------------
 
 func (r *run) mitmConn(c *cli, rc *simnet.TCPConn) {
@@ -84,6 +141,7 @@ func (r *run) mitmConn(c *cli, rc *simnet.TCPConn) {
 	if r.hostile {
 		mode = g.ch(10)
 	}
+	s.Logf("mitm %s conn from %s mode=%d", c.cs.Name+"/"+c.cs.Proto, rc.RemoteAddr().String(), mode)
 	if mode > 1 {
 		s.Probe("c06.ep.upstream." + c.fam)
 		s.Fault("upstream.hostile-reply")
@@ -125,8 +183,25 @@ func (r *run) mitmConn(c *cli, rc *simnet.TCPConn) {
 	}
 }
 
+// expand replaces the placeholders of the response menus by their (large) expansions.
+func (r *run) expand(g gen, resp string) string {
+	if !strings.Contains(resp, "@") {
+		return resp
+	}
+	if strings.Contains(resp, "@flood@") {
+		resp = strings.Replace(resp, "@flood@", strings.Repeat("HTTP/1.1 100 Continue\r\n\r\n", 1+g.ch(300)), 1)
+	}
+	if strings.Contains(resp, "@huge@") {
+		resp = strings.Replace(resp, "@huge@", strings.Repeat("h", pick(g, []int{5000, 70000, 70000, 1100000})), 1)
+	}
+	if strings.Contains(resp, "@tokens@") {
+		resp = strings.Replace(resp, "@tokens@", strings.Repeat("x,", 3000), 1)
+	}
+	return resp
+}
+
 func readSome(c *simnet.TCPConn, wait time.Duration) []byte {
-	buf := make([]byte, 65536)
+	buf := make([]byte, 16384)
 	c.SetReadDeadline(time.Now().Add(wait))
 	n, _ := c.Read(buf)
 	c.SetReadDeadline(time.Time{})
@@ -341,8 +416,8 @@ func (r *run) mitmScript(c *cli, rc *simnet.TCPConn) {
 			"HTTP/1.1 200",
 			"HTTP/1.1 200 OK\r\n",
 			"HTTP/1.1 200 OK\r\nX: y",
-			strings.Repeat("HTTP/1.1 100 Continue\r\n\r\n", 1+g.ch(300)) + "HTTP/1.1 200 OK\r\n\r\n",
-			"HTTP/1.1 200 OK\r\nX-Huge: " + strings.Repeat("h", pick(g, []int{5000, 70000, 1100000})) + "\r\n\r\n",
+			"@flood@HTTP/1.1 200 OK\r\n\r\n",
+			"HTTP/1.1 200 OK\r\nX-Huge: @huge@\r\n\r\n",
 			"HTTP/1.1 999 Whatever\r\n\r\n",
 			"HTTP/1.1 2000 OK\r\n\r\n",
 			"HTTP/1.1 -200 OK\r\n\r\n",
@@ -360,11 +435,12 @@ func (r *run) mitmScript(c *cli, rc *simnet.TCPConn) {
 			"HTTP/1.1\r\n\r\n",
 			"ICY 200 OK\r\n\r\n",
 			"\r\n\r\n",
-			"HTTP/1.1 200 " + strings.Repeat("R", 70000) + "\r\n\r\n",
+			"HTTP/1.1 200 @huge@\r\n\r\n",
 			"HTTP/1.1 204 No Content\r\n\r\n",
 			"HTTP/1.1 101 Switching Protocols\r\nUpgrade: x\r\nConnection: Upgrade\r\n\r\n",
 			"HTTP/1.0 200 OK\n\n",
 		})
+		resp = r.expand(g, resp)
 		if g.ch(6) == 0 {
 			resp = string(g.bytes(pick(g, []int{1, 20, 300, 5000})))
 		}
@@ -469,14 +545,35 @@ func (r *run) udpUpstream(c *cli, sock *simnet.UDPConn) {
 				a := svc.TargetIP4.As4()
 				addr = append(append([]byte{1}, a[:]...), addr[len(addr)-2:]...)
 			}
+			if isDNSAddr(addr) {
+				var drop bool
+				if payload, drop = r.dnsResponse(g, payload); drop {
+					continue
+				}
+			}
 			spid++
 			valid = k.encodeUDPServer(udpMsg{sid: ssid, pid: spid, typ: 1, ts: r.now(), csid: csid, withCSID: true, addr: addr, payload: payload})
 		default:
 			valid = pkt // none: [address][payload]; SOCKS5: RSV FRAG [address][payload] - an echo is a well-formed reply
-			if c.fam == "none" {
-				if l := socksAddrLen(pkt); l > 0 && pkt[0] == 3 {
-					a := svc.TargetIP4.As4()
-					valid = append(append(append([]byte{1}, a[:]...), pkt[l-2:l]...), pkt[l:]...)
+			hdr := 0
+			if c.fam == "socks5" {
+				hdr = 3
+			}
+			if len(pkt) > hdr {
+				if l := socksAddrLen(pkt[hdr:]); l > 0 {
+					switch {
+					case isDNSAddr(pkt[hdr : hdr+l]):
+						resp, drop := r.dnsResponse(g, pkt[hdr+l:])
+						if drop {
+							continue
+						}
+						valid = append(append([]byte(nil), pkt[:hdr+l]...), resp...)
+					case pkt[hdr] == 3:
+						a := svc.TargetIP4.As4()
+						valid = append([]byte(nil), pkt[:hdr]...)
+						valid = append(append(append(valid, 1), a[:]...), pkt[hdr+l-2:hdr+l]...)
+						valid = append(valid, pkt[hdr+l:]...)
+					}
 				}
 			}
 		}
@@ -571,6 +668,12 @@ func (r *run) udpUpstream(c *cli, sock *simnet.UDPConn) {
 	}
 }
 
+// isDNSAddr reports whether the SOCKS address is the DNS server's.
+func isDNSAddr(a []byte) bool {
+	d := dnsIP4.As4()
+	return len(a) == 7 && a[0] == 1 && string(a[1:5]) == string(d[:]) && binary.BigEndian.Uint16(a[5:]) == dnsPort
+}
+
 // --- hostile HTTP origin ---------------------------------------------------------------------------
 
 func (r *run) startOrigin() {
@@ -605,7 +708,7 @@ func (r *run) originConn(c *simnet.TCPConn) {
 			"HTTP/1.1 200 OK\r\nTransfer-Encoding: chunked\r\n\r\n5\r\nhel",
 			"HTTP/1.1 200 OK\r\nTransfer-Encoding: chunked\r\n\r\n7fffffffffffffff\r\nx",
 			"HTTP/1.1 200 OK\r\nTransfer-Encoding: chunked\r\nTrailer: X-T\r\n\r\n0\r\nX-T: v\r\nConnection: x\r\n\r\n",
-			strings.Repeat("HTTP/1.1 100 Continue\r\n\r\n", 1+g.ch(50)) + "HTTP/1.1 200 OK\r\nContent-Length: 0\r\n\r\n",
+			"@flood@HTTP/1.1 200 OK\r\nContent-Length: 0\r\n\r\n",
 			"HTTP/1.1 103 Early Hints\r\nLink: </x>\r\n\r\n",
 			"HTTP/1.1 301 Moved\r\nLocation: http://other.example/\r\nContent-Length: 0\r\n\r\n",
 			"HTTP/1.1 302 Found\r\nLocation: ://%zz\r\nContent-Length: 0\r\n\r\n",
@@ -616,8 +719,8 @@ func (r *run) originConn(c *simnet.TCPConn) {
 			"HTTP/1.1 200 OK\r\nContent-Length: 10\r\n\r\nshort",
 			"HTTP/1.1 200 OK\r\nContent-Length: 3\r\nContent-Length: 4\r\n\r\nabcd",
 			"HTTP/1.1 200 OK\r\nConnection: close, X-A, ,\r\nX-A: 1\r\n\r\nuntil-close",
-			"HTTP/1.1 200 OK\r\nConnection: " + strings.Repeat("x,", 3000) + "\r\nContent-Length: 0\r\n\r\n",
-			"HTTP/1.1 200 OK\r\nX-Huge: " + strings.Repeat("h", pick(g, []int{5000, 70000, 1100000})) + "\r\nContent-Length: 0\r\n\r\n",
+			"HTTP/1.1 200 OK\r\nConnection: @tokens@\r\nContent-Length: 0\r\n\r\n",
+			"HTTP/1.1 200 OK\r\nX-Huge: @huge@\r\nContent-Length: 0\r\n\r\n",
 			"HTTP/1.1 200 OK\r\nno colon\r\n\r\n",
 			"HTTP/1.1 200",
 			"HTTP/1.1 200 OK\r\n",
@@ -628,9 +731,11 @@ func (r *run) originConn(c *simnet.TCPConn) {
 			"HTTP/1.1 200 OK\r\nContent-Length: 0\r\n\r\nHTTP/1.1 200 OK\r\nContent-Length: 0\r\n\r\nextra",
 			"HTTP/1.0 200 OK\r\n\r\nold-style-body",
 		})
+		resp = r.expand(g, resp)
 		if g.ch(8) == 0 {
 			resp = string(g.bytes(pick(g, []int{1, 20, 300, 5000})))
 		}
+		s.Logf("origin response round=%d %q", round, clip([]byte(resp), 200))
 		if _, err := c.Write([]byte(resp)); err != nil {
 			return
 		}
